@@ -131,6 +131,10 @@ type App struct {
 	RPC     *FakeRPC
 	Hdr     abci.Header // header of the block being executed / last executed
 	Pending [][]byte    // tx hashes delivered in the current block
+	// GenOverride, when set, is the application state given to InitChain instead of the configured
+	// genesis (restart of a chain from the exported state of another instance)
+	GenOverride map[string]json.RawMessage
+	GenTime     int64 // tick of the genesis time
 	ModAddr map[string]sdk.Address
 }
 
@@ -573,15 +577,37 @@ func (a *App) initChainer(ctx sdk.Ctx, req abci.RequestInitChain) abci.ResponseI
 	return abci.ResponseInitChain{Validators: upd}
 }
 
+// ExportState exports the application state the way a chain is restarted from an export: the pos
+// and gov modules through their own ExportGenesis (JSON round trip included); the auth genesis is
+// assembled from ALL current accounts (module accounts included) with the current supply, because
+// auth.ExportGenesis drops every account without a public key (the module accounts) and the supply -
+// the restart path of the listed properties starts "from a consistent genesis".
+func (a *App) ExportState() map[string]json.RawMessage {
+	ctx := a.Ctx()
+	pgs := pos.ExportGenesis(ctx, a.PK)
+	ags := authtypes.GenesisState{Params: a.AK.GetParams(ctx), Accounts: a.AK.GetAllAccounts(ctx), Supply: a.AK.GetSupply(ctx).GetTotal()}
+	ggs := a.GK.ExportGenesis(ctx)
+	ggs.DAOTokens = sdk.ZeroInt() // the DAO account, with its balance, is among the exported accounts
+	return map[string]json.RawMessage{
+		auth.ModuleName:     authtypes.ModuleCdc.MustMarshalJSON(ags),
+		postypes.ModuleName: postypes.ModuleCdc.MustMarshalJSON(pgs),
+		govtypes.ModuleName: govtypes.ModuleCdc.MustMarshalJSON(ggs),
+	}
+}
+
 // InitChain runs the ABCI InitChain with the configured genesis.
 func (a *App) InitChain() abci.ResponseInitChain {
-	bz, _ := json.Marshal(a.genesis())
-	a.Hdr = abci.Header{ChainID: a.Cfg.ChainID, Time: tickTime(0)}
+	gen := a.GenOverride
+	if gen == nil {
+		gen = a.genesis()
+	}
+	bz, _ := json.Marshal(gen)
+	a.Hdr = abci.Header{ChainID: a.Cfg.ChainID, Time: tickTime(a.GenTime)}
 	cp := &abci.ConsensusParams{Validator: &abci.ValidatorParams{PubKeyTypes: []string{tmtypes.ABCIPubKeyTypeEd25519}}}
 	if a.Cfg.MaxGas > 0 {
 		cp.Block = &abci.BlockParams{MaxBytes: 1 << 20, MaxGas: a.Cfg.MaxGas}
 	}
-	return a.B.InitChain(abci.RequestInitChain{ChainId: a.Cfg.ChainID, Time: tickTime(0), AppStateBytes: bz, ConsensusParams: cp})
+	return a.B.InitChain(abci.RequestInitChain{ChainId: a.Cfg.ChainID, Time: tickTime(a.GenTime), AppStateBytes: bz, ConsensusParams: cp})
 }
 
 // ---------------------------------------------------------------------------------------------
